@@ -1564,6 +1564,12 @@ static int save_object_recurse (program_t * prog, svalue_t ** svp, int type, int
         }
       save_svalue_depth = 0;
       theSize = svalue_save_size (*svp);
+      if (!f)
+        {
+          /* dry run (see save_object()): only give svalue_save_size() the chance to raise its error */
+          (*svp)++;
+          continue;
+        }
       new_str = (char *) DXALLOC (theSize, TAG_TEMPORARY, "save_object: 2");
       *new_str = '\0';
       p = new_str;
@@ -1619,6 +1625,13 @@ int save_object (object_t * ob, const char *file, int save_zeros) {
       free_string_svalue (sp--);
       return 0;
     }
+
+  /*
+   * A variable nested too deep makes svalue_save_size() raise an LPC error. Let that happen now: raised
+   * in the middle of writing, it left the open stream and the temporary file behind.
+   */
+  v = ob->variables;
+  (void) save_object_recurse (ob->prog, &v, 0, save_zeros, NULL);
 
   /*
    * Write the save-files to different directories, just in case
